@@ -36,6 +36,10 @@ func CreateUE(imsi string, ueNumber int, K string, OPC string, OP string) *tglib
 
 	ranUeNgapId := (parsedIMSI + ueNumber) % 1e4
 	supi := "imsi-" + imsi
+	if err == nil {
+		// Each UE gets its own SUPI: initial IMSI + index, keeping the leading zeros
+		supi = fmt.Sprintf("imsi-%0*d", len(imsi), parsedIMSI+ueNumber)
+	}
 
 	ue := tglib.NewRanUeContext(supi,
 		int64(ranUeNgapId),
